@@ -217,7 +217,7 @@ PROPS['C02'] = {
 _C03_SCEN = [  # (scenario, threads, quick cases, thorough cases)
     ('future_mt', 5, 12000, 600000), ('future_async_mt', 5, 12000, 600000), ('mutex_mt', 4, 10000, 500000), ('mutex_pool_handoff', 1, 20000, 400000),
     ('queue_mt', 5, 8000, 400000), ('lqueue_mt', 5, 8000, 400000), ('shared_future_mt', 4, 10000, 500000),
-    ('scheduler_threads', 1, 6000, 200000), ('scheduler_stop_race', 1, 6000, 200000), ('pool_mt', 4, 12000, 400000), ('publisher_mt', 4, 8000, 400000), ('signal_mt', 4, 8000, 400000), ('generator_programs', 2, 6000, 300000), ('aggregator_programs', 2, 4000, 200000),
+    ('scheduler_threads', 1, 6000, 200000), ('scheduler_stop_race', 1, 6000, 200000), ('pool_mt', 4, 12000, 400000), ('publisher_mt', 4, 8000, 400000), ('signal_mt', 4, 8000, 400000), ('generator_programs', 2, 6000, 300000), ('aggregator_programs', 2, 4000, 200000), ('adapter_matrix', 2, 9000, 400000),
 ]
 PROPS['C03'] = {
     'technique': 'ThreadSanitizer (happens-before race detection) over the shared multi-threaded scenario library; guarded fence annotation',
@@ -436,5 +436,25 @@ PROPS['C14'] = {
         J('prog_asan', 'c14.cpp', 'asan', [20000, 1000000], scenario='aggregator_programs', threads=2),
         J('prog_rel', 'c14.cpp', 'rel', [40000, 3000000], scenario='aggregator_programs', threads=2),
         J('prog_casan', 'c14.cpp', 'casan', [0, 500000], scenario='aggregator_programs', threads=2, tiers=(T,)),
+    ],
+}
+
+PROPS['C18'] = {
+    'technique': 'full adapter x outcome x timing matrix with once-flags, outcome comparison, monitoring storage (alloc/release pairing) and payload counters; ASan/LSan',
+    'level_text': ('The matrix adapter {callback_await, callback_await_alloc, make_promise, make_promise(storage), discard, six future_conv forms plus '
+                   'conv(promise)<<fn, call_fn_future_awaiter} x outcome {value, exception, dropped promise} x timing {resolved before registration, '
+                   'later on the same thread, concurrently on another pinned thread with stalls in subscribe/resolve} is walked round-robin. Oracle: '
+                   'completion callback ran exactly once with exactly the supplied outcome; converters deliver the converted value, the source\'s '
+                   'exception / broken promise, or the converter\'s own exception to the outer future; the helper block taken from the supplied '
+                   'storage is released exactly once with the same size (monitoring storage), heap helpers are covered by LSan and payload counters.'),
+    'level_note': 'Trusts the monitoring storage (vf/include/vf/mstorage.h) and the outcome reader; the concurrent column only covers reached interleavings (classes in the evidence).',
+    'rule': ('case = one matrix cell execution (13 adapters x 3 outcomes x 3 timings = 117 cells, each repeated with different offsets/stall plans); every '
+             'case is non-trivial; distinct = distinct (cell, converter-throws flag, interleaving class of the concurrent column).'),
+    'min_nontrivial': [100, 130],
+    'require_classes': ['adapter_matrix:concurrent_parked_before_resolution', 'adapter_matrix:concurrent_lost_subscribe_race'],
+    'jobs': [
+        J('matrix_asan', 'c18.cpp', 'asan', [60000, 3000000], scenario='adapter_matrix', threads=2),
+        J('matrix_rel', 'c18.cpp', 'rel', [200000, 10000000], scenario='adapter_matrix', threads=2),
+        J('matrix_casan', 'c18.cpp', 'casan', [0, 1500000], scenario='adapter_matrix', threads=2, tiers=(T,)),
     ],
 }
